@@ -348,9 +348,9 @@ def shapes(tier):
             for m in sorted(set([0, 1, mx - 1, mx, mx + 1])):
                 if m >= 0:
                     jobs.append(('oaep_encrypt', dict(k=k, hash=hname, mlen=m, llen=0 if m else 2)))
-    for k in ((12, 13, 16, 20) if th else (12, 16)):          # k = 24 with an empty message exceeds the path cap (one fork per padding byte)
+    for k in ((12, 13, 16, 20) if th else (12, 16)):          # long paddings exceed the path cap (one fork per non-zero padding byte)
         for m in sorted(set([0, 1, k - 12, k - 11, k - 10])):
-            if m >= 0:
+            if m >= 0 and (k - m <= 16):
                 jobs.append(('v15_encrypt', dict(k=k, mlen=m)))
     return jobs
 
